@@ -29,7 +29,7 @@ class ModelError(Exception):
 
 
 class Ev:
-    __slots__ = ('name', 'serial', 'flags', 'seq', 'wrapped', 'anyof', 'kind', 'marked', 'region', 'state')
+    __slots__ = ('name', 'serial', 'flags', 'seq', 'wrapped', 'anyof', 'kind', 'marked', 'region', 'state', 'origin')
 
     def __init__(self, name, serial, kind='e'):
         self.name = name        # event name, None = completion, '$start' / '$stop'
@@ -42,6 +42,7 @@ class Ev:
         self.marked = False     # mp11: processed, waiting to be erased from the pool
         self.region = -1
         self.state = None
+        self.origin = 'q'       # 'q' stored by enqueue_event / nested process_event, 'd' deferred by a state or a Defer action
 
     def clone(self):
         e = Ev(self.name, self.serial, self.kind)
@@ -50,6 +51,7 @@ class Ev:
         e.marked = self.marked
         e.region = self.region
         e.state = self.state
+        e.origin = self.origin
         return e
 
     def plain(self):
@@ -580,6 +582,22 @@ class World:
         walk(self.root)
         return tuple(out)
 
+    def deferred_serials(self):
+        """serials that are pending because a state or a Defer action deferred them, in the order in
+        which they were deferred (per machine, machines in pre-order)"""
+        out = []
+
+        def walk(ms):
+            for e in ms.queue:
+                if e.kind == 'e' and not e.marked and e.origin == 'd':
+                    out.append(e.serial)
+            for e in ms.deferred:
+                out.append(e.serial)
+            for s in ms.subs.values():
+                walk(s)
+        walk(self.root)
+        return out
+
     def pending_serials(self):
         out = []
 
@@ -639,6 +657,7 @@ class BackWorld(World):
     def back_defer(self, ms: MS, ev: Ev):
         e = ev.plain()
         e.seq = (ms.cur_seq + 1) % self.seqmod
+        e.origin = 'd'
         ms.deferred.append(e)
 
     def action_defer(self, ms: MS, ev: Ev):
@@ -785,13 +804,14 @@ class Mp11World(World):
     def sub_process(self, sub: MS, ev: Ev):
         return self.pei(sub, ev.plain(), 'sub')
 
-    def pool_add(self, ms: MS, ev: Ev, next_rtc_seq):
+    def pool_add(self, ms: MS, ev: Ev, next_rtc_seq, origin='q'):
         e = ev.plain()
         e.seq = ms.cur_seq if next_rtc_seq else (ms.cur_seq - 1) % self.seqmod
+        e.origin = origin
         ms.queue.append(e)
 
     def action_defer(self, ms: MS, ev: Ev):
-        self.pool_add(ms, ev, ms.processing)
+        self.pool_add(ms, ev, ms.processing, 'd')
 
     def is_deferred(self, ms: MS, ev: Ev):
         res = False
@@ -809,8 +829,11 @@ class Mp11World(World):
             self.swallowed.add(ev.serial)
             return HT
         if info != 'pool':
-            if ms.processing or (info != 'sub' and self.is_deferred(ms, ev)):
+            if ms.processing:
                 self.pool_add(ms, ev, False)
+                return HD
+            if info != 'sub' and self.is_deferred(ms, ev):
+                self.pool_add(ms, ev, False, 'd')
                 return HD
             ms.cur_seq = (ms.cur_seq + 1) % self.seqmod
         ms.processing = True
@@ -836,6 +859,10 @@ class Mp11World(World):
                 if i == len(ms.queue):
                     break
                 continue
+            # PROPERTY (C04/C10): the single-step variant dispatches exactly the oldest event; completion
+            # transitions of the states that event entered belong to the same step and are not counted
+            if max_events is not None and processed >= max_events and e.kind != 'c':
+                break
             if e.kind == 'c':
                 e.marked = True
                 r = self.completion_transition(ms, e)
@@ -850,10 +877,8 @@ class Mp11World(World):
                 if i == len(ms.queue):
                     break
                 continue
-            if r != HD:
+            if r != HD and e.kind != 'c':
                 processed += 1
-                if max_events is not None and processed == max_events:
-                    break
             i = 0
             if not (r & HD):
                 ms.cur_seq = (ms.cur_seq + 1) % self.seqmod
